@@ -75,7 +75,7 @@ Print Assumptions C27_failure_isolated_refuted.
 (* store creation fails on a passive-side error even when replication is already marked failed *)
 Theorem C27_create_fails_when_passive_down : exists w n si f,
   w_failed w = true /\ snd (step w (OCreate n si f)) = RErr /\ snd (step w (OCreate n si nofault)) = ROk.
-Proof. exists (mkW empty_side empty_side true true false []), 1, si1, allfail. vm_compute. auto. Qed.
+Proof. exists (mkW empty_side empty_side true true false [] (fun _ => None)), 1, si1, allfail. vm_compute. auto. Qed.
 
 (* a passive-side error during a store drop is not flagged: replication stays on while the
    passive folder still lists the store *)
@@ -86,7 +86,7 @@ Theorem C27_drop_fault_unflagged : exists w n f,
   synced w /\ let w1 := fst (step w (ODrop n f)) in
   snd (step w (ODrop n f)) = ROk /\ w_failed w1 = false /\ s_has (active w1) n = false /\ s_has (passive w1) n = true.
 Proof.
-  exists (mkW side1 side1 true false false []), 1, allfail. split.
+  exists (mkW side1 side1 true false false [] (fun _ => None)), 1, allfail. split.
   - repeat split.
   - vm_compute. auto.
 Qed.
@@ -106,7 +106,7 @@ Definition C27_reinstate_full : Prop := forall w,
 (* False: CopyToPassiveFolders looks every store up with the folder toggler flipped, i.e. on the
    passive side.  On a replaced (empty) drive the store is "not found" and skipped: neither its
    store info nor its registry files are copied, yet replication is switched back on. *)
-Definition w_wiped : world := mkW side1 empty_side true true false [].
+Definition w_wiped : world := mkW side1 empty_side true true false [] (fun _ => None).
 Theorem C27_reinstate_refuted : ~ C27_reinstate_full.
 Proof.
   intros H. destruct (H w_wiped eq_refl eq_refl) as [_ (_ & _ & _ & (_ & Ei & _))].
@@ -123,13 +123,27 @@ Theorem C27_reinstate_refuted_witness :
   /\ isSome (s_reg (active w1) 1 7) = true /\ s_reg (passive w1) 1 7 = None.
 Proof. vm_compute. repeat split. Qed.
 
-(* True when the passive folder already holds the current store info of every listed store
-   (exactly the pattern the refutation violates): then the registry files are copied wholesale
+(* Second consequence of the same lookup: it goes through the L2 cache under the key
+   "<passive folder>:<store>", and the first reinstate leaves the info it saw there.  A later reinstate
+   within the cache TTL takes the cached (old) info and WRITES it over the passive storeinfo.txt - even
+   when the passive folder was a perfect copy (reproduced on the code; same finding). *)
+Definition si1_old : sinfo := mkSI 1 (-5) 7 50.
+Theorem C27_reinstate_cache_regression :
+  let w := mkW side1 side1 true true false [] (fun n => if n =? 1 then Some si1_old else None) in
+  side_eq (active w) (passive w) /\
+  let w1 := fst (step w (OReinstate false)) in
+  snd (step w (OReinstate false)) = ROk /\ w_failed w1 = false
+  /\ s_info (active w1) 1 = Some si1 /\ s_info (passive w1) 1 = Some si1_old.
+Proof. cbv zeta. split; [repeat split|vm_compute; repeat split]. Qed.
+Print Assumptions C27_reinstate_cache_regression.
+
+(* True when what the lookup sees (cache entry under the passive key, else the passive folder) is the
+   current store info of every listed store (exactly the pattern the refutations violate): then the registry files are copied wholesale
    and the two folders are equal afterwards, and stay equal under further fault-free operations. *)
 Theorem C27_reinstate_partial : forall w,
   w_failed w = true -> w_logs w = [] -> tidy_outside w ->
   (forall n, s_has (active w) n = true ->
-     s_info (passive w) n = s_info (active w) n /\ isSome (s_info (active w) n) = true) ->
+     seen_info (w_pcache w) (passive w) n = s_info (active w) n /\ isSome (s_info (active w) n) = true) ->
   snd (step w (OReinstate false)) = ROk /\ synced (fst (step w (OReinstate false)))
   /\ active (fst (step w (OReinstate false))) = active w.
 Proof. intros w F G T H. apply reinstate_ok; auto. Qed.
@@ -138,7 +152,7 @@ Print Assumptions C27_reinstate_partial.
 Corollary C27_reinstate_then_replica : forall w ops,
   w_failed w = true -> w_logs w = [] -> tidy_outside w ->
   (forall n, s_has (active w) n = true ->
-     s_info (passive w) n = s_info (active w) n /\ isSome (s_info (active w) n) = true) ->
+     seen_info (w_pcache w) (passive w) n = s_info (active w) n /\ isSome (s_info (active w) n) = true) ->
   wf_run (fst (step w (OReinstate false))) ops ->
   synced (fst (run w (OReinstate false :: ops))).
 Proof.
